@@ -21,6 +21,11 @@ type Ctx struct {
 	k1    *Prog
 	k2    *Prog
 	k2err error
+	// normalised view (see inline.go): same fields for the tree with non-inventory helpers inlined
+	norm     *Ctx
+	normDone bool
+	isNorm   bool
+	normNote string
 }
 
 // K1 is the linux/amd64 configuration.
@@ -29,9 +34,61 @@ func (c *Ctx) K1() *Prog { return c.k1 }
 // K2 is the linux/arm64 configuration (loaded on demand).
 func (c *Ctx) K2() (*Prog, error) {
 	if c.k2 == nil && c.k2err == nil {
-		c.k2, c.k2err = Load(c.Repo, "arm64")
+		if c.isNorm {
+			c.k2, _, c.k2err = loadNormalised(c.Repo, c.Verif, "arm64")
+			if c.k2err == nil && c.k2 == nil {
+				c.k2, c.k2err = Load(c.Repo, "arm64") // nothing to inline for this configuration
+			}
+		} else {
+			c.k2, c.k2err = Load(c.Repo, "arm64")
+		}
 	}
 	return c.k2, c.k2err
+}
+
+// loadNormalised builds the normalised view of one configuration; (nil, "", nil) when there is nothing to inline.
+func loadNormalised(repo, verif, arch string) (*Prog, string, error) {
+	inv, err := readInventory(verif)
+	if err != nil {
+		return nil, "", err
+	}
+	scratch, err := Load(repo, arch) // a private copy of the syntax trees: the transformation edits them in place
+	if err != nil {
+		return nil, "", err
+	}
+	overlay, st := buildOverlay(scratch, inv)
+	if len(overlay) == 0 {
+		return nil, "", nil
+	}
+	p, err := LoadOverlay(repo, arch, overlay)
+	if err != nil {
+		return nil, "", fmt.Errorf("normalised view does not type-check: %w", err)
+	}
+	var fns []string
+	for k, n := range st.Functions {
+		fns = append(fns, fmt.Sprintf("%s×%d", strings.TrimPrefix(k, Mod+"/"), n))
+	}
+	sort.Strings(fns)
+	note := fmt.Sprintf("%d call sites of %d functions that are not in the function inventory of the pinned tree were inlined in %d files (%s)", st.Sites, len(st.Functions), st.Files, strings.Join(fns, ", "))
+	return p, note, nil
+}
+
+// normalised returns the context of the normalised view, or nil when it does not exist or does not type-check.
+func (c *Ctx) normalised() *Ctx {
+	if c.normDone {
+		return c.norm
+	}
+	c.normDone = true
+	p, note, err := loadNormalised(c.Repo, c.Verif, "amd64")
+	if err != nil {
+		fmt.Printf("note: normalised view unavailable: %v\n", err)
+		return nil
+	}
+	if p == nil {
+		return nil
+	}
+	c.norm = &Ctx{Repo: c.Repo, Verif: c.Verif, Tier: c.Tier, k1: p, isNorm: true, normNote: note}
+	return c.norm
 }
 
 type propFn func(*Ctx)
@@ -47,6 +104,8 @@ func main() {
 	verif := flag.String("verif", "/verif", "verification directory")
 	evidence := flag.String("evidence", "", "evidence file (default <verif>/evidence/<id>.json)")
 	list := flag.Bool("list", false, "list properties")
+	writeInv := flag.Bool("write-inventory", false, "maintenance: write <verif>/inventory.txt (the function names of the tree as it is now) and exit; never done by a check")
+	dumpNorm := flag.String("dump-normalised", "", "development aid: write the normalised files into this directory and exit")
 	stableOf := flag.String("stable", "", "development aid: print the rename-stable form of a construct string and exit")
 	flag.Parse()
 	if *list {
@@ -85,6 +144,7 @@ func main() {
 			ctx := &Ctx{Repo: *repo, Verif: *verif, Tier: *tier, R: NewReport(id, *tier)}
 			if shared != nil {
 				ctx.k1, ctx.k2, ctx.k2err = shared.k1, shared.k2, shared.k2err
+				ctx.norm, ctx.normDone = shared.norm, shared.normDone
 			}
 			rc := run(ctx, f, filepath.Join(*evidence, id+".json"))
 			shared = ctx
@@ -94,6 +154,56 @@ func main() {
 			}
 		}
 		os.Exit(worst)
+	}
+	if *writeInv {
+		set := map[string]bool{}
+		for _, arch := range []string{"amd64", "arm64"} {
+			k, err := Load(*repo, arch)
+			if err != nil {
+				fmt.Fprintln(os.Stderr, err)
+				os.Exit(2)
+			}
+			for _, n := range inventoryOf(k) {
+				set[n] = true
+			}
+		}
+		var names []string
+		for n := range set {
+			names = append(names, n)
+		}
+		sort.Strings(names)
+		txt := "# functions declared in the module packages of the pinned tree (linux/amd64 and linux/arm64); unexported functions that are\n# not listed here are treated as newly extracted helpers and inlined in the normalised view (goomvet/inline.go)\n" + strings.Join(names, "\n") + "\n"
+		if err := os.WriteFile(filepath.Join(*verif, "inventory.txt"), []byte(txt), 0o644); err != nil {
+			fmt.Fprintln(os.Stderr, err)
+			os.Exit(2)
+		}
+		fmt.Printf("inventory: %d functions\n", len(names))
+		return
+	}
+	if *dumpNorm != "" {
+		inv, err := readInventory(*verif)
+		if err != nil {
+			fmt.Fprintln(os.Stderr, err)
+			os.Exit(2)
+		}
+		k, err := Load(*repo, "amd64")
+		if err != nil {
+			fmt.Fprintln(os.Stderr, err)
+			os.Exit(2)
+		}
+		ov, st := buildOverlay(k, inv)
+		for name, txt := range ov {
+			rel, _ := filepath.Rel(*repo, name)
+			out := filepath.Join(*dumpNorm, rel)
+			_ = os.MkdirAll(filepath.Dir(out), 0o755)
+			_ = os.WriteFile(out, txt, 0o644)
+		}
+		fmt.Printf("normalised: %d sites, %d files; skipped: %v\n", st.Sites, st.Files, st.Skipped)
+		if _, err := LoadOverlay(*repo, "amd64", ov); err != nil {
+			fmt.Println("TYPE-CHECK FAILED:", err)
+			os.Exit(1)
+		}
+		return
 	}
 	if *stableOf != "" {
 		for _, arch := range []string{"amd64", "arm64"} {
@@ -155,6 +265,46 @@ func run(ctx *Ctx, f propFn, evidence string) (code int) {
 	if ctx.k2 != nil {
 		ctx.R.Stat("packages_arm64", len(ctx.k2.Pkgs))
 		ctx.R.Stat("functions_arm64", len(ctx.k2.Funcs))
+	}
+	ctx.R.Stat("view", "tree as written")
+	if ctx.R.Failing(ctx.Verif) && os.Getenv("GOOMVET_NO_NORMALISE") == "" {
+		// decide again on the normalised view: a proof there is a proof about the tree (inline.go)
+		if nc := ctx.normalised(); nc != nil {
+			r1 := NewReport(ctx.R.Prop, ctx.R.Tier)
+			nc.R = r1
+			r1.Stable = func(s string) string {
+				t := nc.k1.StableConstruct(s)
+				if t == s && nc.k2 != nil {
+					t = nc.k2.StableConstruct(s)
+				}
+				return t
+			}
+			r1.SetConfig("linux/amd64")
+			okRun := func() (ok bool) {
+				defer func() {
+					if e := recover(); e != nil {
+						ok = false
+					}
+				}()
+				f(nc)
+				return true
+			}()
+			if os.Getenv("GOOMVET_DEBUG") != "" {
+				for _, o := range r1.Obls {
+					if o.Verdict != Discharged {
+						fmt.Printf("  [normalised view] %s %s %s: %s [%s]\n", o.Pos, o.Verdict, o.Rule, o.Reason, o.Construct)
+					}
+				}
+			}
+			if okRun && !r1.Failing(ctx.Verif) {
+				r1.Stat("packages_amd64", len(nc.k1.Pkgs))
+				r1.Stat("functions_amd64", len(nc.k1.Funcs))
+				r1.Stat("view", "normalised: "+nc.normNote+"; the tree as written left "+ctx.R.Summary()+"; positions refer to the normalised text")
+				fmt.Printf("note: %s decided on the normalised view: %s\n", ctx.R.Prop, nc.normNote)
+				r1.start = ctx.R.start
+				ctx.R = r1
+			}
+		}
 	}
 	return ctx.R.Finish(ctx.Verif, evidence)
 }
